@@ -23,6 +23,7 @@ import (
 	"fmt"
 	"sort"
 	"strings"
+	"sync"
 	"testing"
 	"time"
 
@@ -30,6 +31,7 @@ import (
 
 	kit "github.com/openbao/openbao/sdk/v2/helper/verifkit"
 	"github.com/openbao/openbao/sdk/v2/logical"
+	"github.com/openbao/openbao/sdk/v2/physical"
 	"github.com/openbao/openbao/v2/internal/helper/namespace"
 )
 
@@ -952,10 +954,58 @@ func (x *c02Run) do(q *c02Req, stage string) (*c02Verdict, bool) {
 	o := x.exec(q)
 	x.step("%s %s %s hdr=%q tok=%s -> ref %s (%s) / %s h=%d", stage, q.Op, q.Path, q.Header, c02TokName(q.Tok), vd.Kind, vd.Reason, o.Resp, len(o.Handlers))
 	ok := x.check(q, vd, o, stage)
+	if ok && x.nreq%5 == 0 {
+		ok = x.capabilities(q, vd)
+	}
 	if x.nreq%97 == 1 {
 		x.r.Sample(map[string]any{"case": x.caseID, "request": q, "verdict": vd, "outcome": o})
 	}
 	return vd, ok
+}
+
+// capabilities: what sys/capabilities reports for the request's token and path in the
+// request's namespace must be what the reference (and therefore request authorisation)
+// grants on the namespace-qualified path.
+func (x *c02Run) capabilities(q *c02Req, vd *c02Verdict) bool {
+	t := q.Tok
+	if t == nil || t.Forged || vd.Abs == "" || strings.HasPrefix(vd.Reason, "early:") || strings.Contains(q.Why, "hostile") {
+		return true
+	}
+	if s, _ := t.liveness("", time.Now()); s != "live" || t.CIDR != "" {
+		return true
+	}
+	rel := vd.Abs[len(vd.NS):]
+	if rel == "" || strings.HasPrefix(rel, "/") {
+		return true
+	}
+	now := time.Now()
+	want, ok := x.w.capsOf(t, vd.NS, vd.Abs, now)
+	if !ok {
+		return true
+	}
+	resp, err := x.v.Do(vReq{Op: logical.UpdateOperation, Path: "sys/capabilities", Token: x.v.Root, NS: vd.NS, Data: map[string]any{"token": t.ID, "paths": []string{rel}}})
+	if !vOK(resp, err) || resp == nil {
+		x.r.Count("capabilities_query_failed", 1)
+		return true
+	}
+	got, _ := resp.Data[rel].([]string)
+	got = append([]string(nil), got...)
+	sort.Strings(got)
+	sort.Strings(want)
+	x.r.Count("capabilities_compared", 1)
+	if vd.NS != t.NS {
+		x.r.Count("capabilities_compared_cross_namespace", 1)
+	}
+	if strings.Join(got, ",") != strings.Join(want, ",") {
+		if w2, ok2 := x.w.capsOf(t, vd.NS, vd.Abs, time.Now()); !ok2 || strings.Join(w2, ",") != strings.Join(want, ",") {
+			return true // a time-boxed block crossed its expiration meanwhile
+		}
+		x.r.Violate("C02-capabilities-disagree-with-authorisation", x.caseID, fmt.Sprintf("[%s] sys/capabilities in namespace %q for path %q with token %s reports %v; the token's policies grant %v on the namespace-qualified path %q", x.caseID, vd.NS, rel, c02TokName(t), got, want, vd.Abs),
+			map[string]any{"request": q, "verdict": vd, "reported": got, "reference": want, "token_rules": x.rulesOf(t), "recent_steps": x.steps})
+		x.aborted = true
+		return false
+	}
+	return true
 }
 
 // ---------------------------------------------------------------- mutations (staleness)
@@ -1388,6 +1438,8 @@ func TestVerif_C02_Requests(t *testing.T) {
 	r.Require("refused:no token", int64(ntopo*5))
 	r.Require("staleness_flips", int64(ntopo*5))
 	r.Require("topologies_with_policy_lru", int64(ntopo/2))
+	r.Require("capabilities_compared", int64(ntopo*30))
+	r.Require("capabilities_compared_cross_namespace", int64(ntopo*5))
 	r.Require("topologies_with_timed_grants", int64(ntopo/4))
 	r.Require("timed_grant_authorised_before_expiry", int64(ntopo*4))
 	r.Require("refused:policy:expired-grant", int64(ntopo*4))
@@ -1689,4 +1741,237 @@ func TestVerif_C02_Concurrent(t *testing.T) {
 	r.Require("concurrent_R_authorised", 10)
 	r.Require("concurrent_R_refused", 10)
 	r.Require("next_request_follows_change", 60)
+}
+
+// ---------------------------------------------------------------- change inside a request's read window
+
+// c02Hold sits between the core and the probe store. When armed it runs fn once,
+// synchronously, right after the n-th Get of the armed goroutine returned: the request
+// has taken a value from storage and has not yet acted on it. This is the suspension
+// point the storage gate cannot give (it parks a get before it executes).
+type c02Hold struct {
+	physical.Backend
+	mu    sync.Mutex
+	goid  uint64
+	count int
+	at    int
+	fn    func(key string)
+	keys  []string
+}
+
+func (h *c02Hold) Get(ctx context.Context, key string) (*physical.Entry, error) {
+	e, err := h.Backend.Get(ctx, key)
+	h.mu.Lock()
+	var fn func(string)
+	if h.goid != 0 && kit.GoID() == h.goid {
+		h.count++
+		h.keys = append(h.keys, key)
+		if h.fn != nil && h.count == h.at {
+			fn = h.fn
+			h.fn = nil
+		}
+	}
+	h.mu.Unlock()
+	if fn != nil {
+		fn(key)
+	}
+	return e, err
+}
+
+// arm: calls on this goroutine are counted from now; fn runs after the at-th Get (0: never).
+func (h *c02Hold) arm(at int, fn func(string)) {
+	h.mu.Lock()
+	h.goid, h.count, h.at, h.fn, h.keys = kit.GoID(), 0, at, fn, nil
+	h.mu.Unlock()
+}
+
+func (h *c02Hold) disarm() []string {
+	h.mu.Lock()
+	defer h.mu.Unlock()
+	h.goid, h.fn = 0, nil
+	return h.keys
+}
+
+func TestVerif_C02_ReadWindow(t *testing.T) {
+	seed := kit.Seed(2)
+	r := kit.NewResult(t, "c02-readwindow", seed, "for each configuration change P (policy delete, policy restricting rewrite, token revoke, entity disable; root and child namespace) and each storage read g_i that a dependent, authorised request R performs on a core whose policy LRU is cold (purged, as after unseal or eviction) and whose physical cache is off: P is issued and, if it is not blocked by R, completes entirely between the moment g_i returned and R's next step; R must be handled-and-successful or refused-without-effect, and every request issued after P returned must be refused without a handler event. All read positions of R are enumerated; a case is non-trivial when P completed inside the window; distinct by (scenario, class of the key read)")
+	r.Exhaustive = true
+	defer r.Write(t)
+	inner, probe := kit.NewInmemProbe(false)
+	hold := &c02Hold{Backend: inner}
+	v := vBoot(t, vOpts{Cache: true, Phys: hold}) // cache on: the policy store has its LRU
+	v.Probe = probe
+	v.Core.physicalCache.SetEnabled(false) // every read reaches the store
+	x := &c02Run{t: t, r: r, v: v, rng: kit.NewRand(seed, 998), w: &c02World{NSs: []string{"", "ns1/"}, Policies: map[string]*c02Policy{}}}
+	v.MustDo(vReq{Op: logical.UpdateOperation, Path: "sys/namespaces/ns1", Token: v.Root})
+	for _, ns := range x.w.NSs {
+		for _, mp := range []struct {
+			p    string
+			auth bool
+		}{{"kv/", false}, {"auth/rec/", true}} {
+			m := &c02Mount{NS: ns, Path: mp.p, Abs: ns + mp.p, Auth: mp.auth}
+			x.w.Mounts = append(x.w.Mounts, m)
+			x.mount(m)
+		}
+	}
+	allow := `path "kv/data/c" { capabilities = ["read","update","create"] }`
+	restrict := `path "kv/data/c" { capabilities = ["list"] }`
+	type scen struct {
+		name, ns string
+		write    bool
+	}
+	var scens []scen
+	for _, w := range []bool{false, true} {
+		for _, ns := range []string{"", "ns1/"} {
+			for _, nm := range []string{"policy-delete", "policy-restrict", "token-revoke", "entity-disable"} {
+				scens = append(scens, scen{nm, ns, w})
+			}
+		}
+	}
+	n := 0
+	for _, sc := range scens {
+		type fixture struct{ pname, tok, ent string }
+		setup := func() fixture {
+			n++
+			f := fixture{pname: fmt.Sprintf("rw%d", n)}
+			v.Policy(f.pname, allow, sc.ns)
+			if sc.name == "entity-disable" {
+				resp, err := v.Do(vReq{Op: logical.UpdateOperation, Path: sc.ns + "auth/rec/login/u", Data: map[string]any{"policies": []string{f.pname}, "alias": fmt.Sprintf("rw%d", n), "no_default_policy": true, "ttl": "1h"}})
+				if !vOK(resp, err) || resp == nil || resp.Auth == nil {
+					t.Fatalf("verif: login failed: %s", vErrStr(resp, err))
+				}
+				f.tok, f.ent = resp.Auth.ClientToken, resp.Auth.EntityID
+			} else {
+				tk, resp, err := v.CreateToken(v.Root, map[string]any{"policies": []string{f.pname}, "no_default_policy": true, "ttl": "1h"}, false, sc.ns)
+				if tk == nil {
+					t.Fatalf("verif: token create failed: %s", vErrStr(resp, err))
+				}
+				f.tok = tk.ID
+			}
+			return f
+		}
+		change := func(f fixture) (*logical.Response, error) {
+			switch sc.name {
+			case "policy-delete":
+				return v.Do(vReq{Op: logical.DeleteOperation, Path: "sys/policies/acl/" + f.pname, Token: v.Root, NS: sc.ns})
+			case "policy-restrict":
+				return v.Do(vReq{Op: logical.UpdateOperation, Path: "sys/policies/acl/" + f.pname, Token: v.Root, NS: sc.ns, Data: map[string]any{"policy": restrict}})
+			case "token-revoke":
+				return v.Do(vReq{Op: logical.UpdateOperation, Path: "auth/token/revoke", Token: v.Root, NS: sc.ns, Data: map[string]any{"token": f.tok}})
+			default:
+				return v.Do(vReq{Op: logical.UpdateOperation, Path: "identity/entity/id/" + f.ent, Token: v.Root, NS: sc.ns, Data: map[string]any{"disabled": true}})
+			}
+		}
+		type res struct {
+			OK       bool   `json:"non_error"`
+			Handlers int    `json:"handler_events"`
+			Resp     string `json:"response"`
+		}
+		doR := func(f fixture) res {
+			mark := v.Rec.Len()
+			op, data := logical.ReadOperation, map[string]any(nil)
+			if sc.write {
+				op, data = logical.UpdateOperation, map[string]any{"v": fmt.Sprint(n)}
+			}
+			resp, err := v.Do(vReq{Op: op, Path: "kv/data/c", Token: f.tok, NS: sc.ns, Data: data})
+			out := res{OK: vOK(resp, err), Resp: vErrStr(resp, err)}
+			for _, e := range v.Rec.Since(mark) {
+				if e.Kind == "handler" {
+					out.Handlers++
+				}
+			}
+			return out
+		}
+		// how many reads does a cold R make?
+		f0 := setup()
+		if r0 := doR(f0); !(r0.OK && r0.Handlers == 1) {
+			r.Violate("C02-concurrent-baseline", "", fmt.Sprintf("readwindow %s: the authorised baseline request failed: %+v", sc.name, r0), nil)
+			continue
+		}
+		v.Core.policyStore.PurgeCache()
+		hold.arm(0, nil)
+		doR(f0)
+		keys := hold.disarm()
+		r.Count(fmt.Sprintf("reads_per_cold_request:%s@%s write=%v", sc.name, sc.ns, sc.write), len(keys))
+		for i := 1; i <= len(keys) && i <= 60; i++ {
+			caseID := fmt.Sprintf("rw:%s:%s:%v:%d", sc.name, sc.ns, sc.write, i)
+			if !kit.WantCase(caseID) {
+				continue
+			}
+			f := setup()
+			r0 := doR(f)
+			if !(r0.OK && r0.Handlers == 1) {
+				r.Violate("C02-concurrent-baseline", caseID, fmt.Sprintf("[%s] the authorised baseline request failed: %+v", caseID, r0), nil)
+				break
+			}
+			v.Core.policyStore.PurgeCache()
+			x.digest = x.storageDigest()
+			var pResp *logical.Response
+			var pErr error
+			done := make(chan struct{})
+			inside, heldKey := false, ""
+			hold.arm(i, func(key string) {
+				heldKey = key
+				go func() {
+					defer close(done)
+					pResp, pErr = change(f)
+				}()
+				select {
+				case <-done:
+					inside = true
+				case <-time.After(150 * time.Millisecond): // P waits for a lock R holds: let R go on (another schedule, not a verdict)
+				}
+			})
+			r1 := doR(f)
+			hold.disarm()
+			r.Eval(1)
+			if heldKey == "" {
+				r.Count("window_not_reached", 1)
+				continue
+			}
+			select {
+			case <-done:
+			case <-time.After(30 * time.Second):
+				r.Inconc("%s: the configuration change did not finish", caseID)
+				return
+			}
+			kc := c02KeyClass(heldKey)
+			wit := map[string]any{"scenario": sc.name, "namespace": sc.ns, "write": sc.write, "read_index": i, "key_read": kc, "change_completed_inside_window": inside, "R_in_window": r1, "change": vErrStr(pResp, pErr)}
+			if !vOK(pResp, pErr) {
+				r.Count("change_failed", 1)
+				r.Note("%s: change failed: %s", caseID, vErrStr(pResp, pErr))
+				continue
+			}
+			if inside {
+				r.Count("change_completed_inside_window", 1)
+				r.Nontrivial(fmt.Sprint(sc.name, "|", sc.ns, "|", sc.write, "|", kc))
+			} else {
+				r.Count("change_blocked_by_request", 1)
+			}
+			d := x.storageDigest()
+			changed := d != x.digest
+			x.digest = d
+			if !(r1.OK && r1.Handlers == 1) && !(!r1.OK && r1.Handlers == 0 && !changed) { // a handled write changes storage, a refused request must not
+				r.Violate("C02-concurrent-inconsistent", caseID, fmt.Sprintf("[%s] the request whose read window contained the change was neither handled-and-successful nor refused-without-effect: %+v", caseID, r1), wit)
+				continue
+			}
+			stale := false
+			for k := 0; k < 2 && !stale; k++ {
+				r2 := doR(f)
+				if r2.OK || r2.Handlers != 0 {
+					wit["R_after"] = r2
+					r.Violate("C02-stale-after-change", caseID, fmt.Sprintf("[%s] %s (ns %q) completed successfully %s the window after the request's read #%d (%s); request %d issued afterwards is still authorised: %+v", caseID, sc.name, sc.ns, map[bool]string{true: "inside", false: "after"}[inside], i, kc, k+1, r2), wit)
+					stale = true
+				}
+			}
+			if !stale {
+				r.Count("next_requests_follow_change", 1)
+			}
+			if r.NViolations() > 8 {
+				return
+			}
+		}
+	}
+	r.Require("change_completed_inside_window", 45)
+	r.Require("next_requests_follow_change", 60)
 }
